@@ -192,7 +192,7 @@ class Kit:
         a = t.detach().double().cpu().numpy() if t.dtype != torch.bool else t.detach().cpu().numpy()
         out = np.empty(a.shape, dtype=object)
         for idx in np.ndindex(*a.shape):
-            out[idx] = E.bconst(bool(a[idx])) if t.dtype == torch.bool else _FloatConst(float(a[idx]))
+            out[idx] = E.bconst(bool(a[idx])) if t.dtype == torch.bool else _exact_const(float(a[idx]))
         return out
 
     # ---- calling the real code -----------------------------------------------------------------------
@@ -328,6 +328,14 @@ class Kit:
         self.notes.append(s)
 
 
+def _exact_const(x: float) -> Expr:
+    """the float measured on real torch, as an exact rational constant (no rationalisation)"""
+    if x != x or x in (math.inf, -math.inf):
+        return E.var("nan" if x != x else ("inf" if x > 0 else "-inf"))
+    f = Fraction(x)
+    return E._mk("const", (f,), "I" if f.denominator == 1 else "R")
+
+
 class _FloatConst(Expr):
     """Concrete-mode element: a float measured on real torch (kept out of the hash-cons table)."""
 
@@ -341,6 +349,8 @@ class _FloatConst(Expr):
 def _fval(e, env):
     if isinstance(e, _FloatConst):
         return e.f
+    if e.op == "var" and e.args[0] in ("nan", "inf", "-inf"):
+        return {"nan": math.nan, "inf": math.inf, "-inf": -math.inf}[e.args[0]]
     v = E.evaluate(E.lift(e), env)
     if isinstance(v, bool):
         return v
@@ -425,6 +435,10 @@ def discharge(ob: Ob, run: explore.Run, kit: Kit, timeout_s: float, n_random: in
             return
     except Unsupported:
         pass
+    # 0b. order relations whose difference normalises to a constant
+    if _ring_order(goal, run) is True:
+        ob.status, ob.backend, ob.time = "proved", "ring", time.time() - t0
+        return
     # 1. ring
     if goal.op == "eq":
         try:
@@ -453,6 +467,25 @@ def discharge(ob: Ob, run: explore.Run, kit: Kit, timeout_s: float, n_random: in
     ob.model = r.model
     ob.detail = (ob.detail + " " + r.reason).strip()
     ob.time = time.time() - t0
+
+
+def _ring_order(goal: Expr, run) -> Optional[bool]:
+    """Decide conjunctions of a <= b / a < b whose difference the ring normaliser reduces to a constant."""
+    if goal.op == "and":
+        rs = [_ring_order(g, run) for g in goal.args]
+        if all(r is True for r in rs):
+            return True
+        return None
+    if goal.op in ("le", "lt"):
+        try:
+            d = E.sub(goal.args[0], goal.args[1])
+            v = run.ring.const_value(d) if E.size(d) < 20000 else None
+        except (TooBig, Unsupported, ZeroDivisionError):
+            return None
+        if v is None:
+            return None
+        return (v <= 0) if goal.op == "le" else (v < 0)
+    return None
 
 
 def _safe_true(h, env) -> bool:
